@@ -13,9 +13,10 @@ Three specifications (spec/pipeline):
 
 Binding: harness/pipeh instantiates every selected behaviour class on the real engine with the real
 capacities (kvgraph over Badger, Compile + pipeline.Run) and records the events; a run that does not
-close is a divergence only if the supervisor's deadline passed twice (fresh worker) and the
-in-process watchdog saw no row and every pipeline goroutine parked in the same channel operation
-across two goroutine dumps; anything else that misses the deadline is inconclusive."""
+close is a divergence only if two different worker processes (the supervisor retries on a fresh one)
+reported it parked: after a deadline generous for these workloads the in-process watchdog saw, across
+two goroutine dumps, no row delivered and every pipeline goroutine waiting in the same channel
+operation.  Anything else that is not answered is inconclusive."""
 import json, os, re, threading
 from vlib import Inconclusive
 
@@ -172,8 +173,8 @@ def probe_runs(cases):
 
 
 # ------------------------------------------------------------------ real runs
-def execute(ctx, runs, tag, timeout_s, jobs=8):
-    lines = [dict(setup=True, watchdog_s=max(8, int(timeout_s * 0.6)), settle_s=10)]
+def execute(ctx, runs, tag, watchdog_s, jobs=8, timeout_s=180):
+    lines = [dict(setup=True, watchdog_s=watchdog_s, settle_s=10)]
     for i, r in enumerate(runs):
         c = r["case"]
         lines.append(dict(i=i, graph=c["g"], prog=c["prog"], cancel=r["cancel"], probe=bool(r.get("probe"))))
@@ -187,22 +188,39 @@ def execute(ctx, runs, tag, timeout_s, jobs=8):
             res[int(o["i"])] = o
     if len(res) != len(runs):
         raise Inconclusive("pipeh %s: %d answers for %d runs" % (tag, len(res), len(runs)))
+    log = os.path.join(ctx.scratch, "c07stuck.log")
+    if os.path.exists(log):
+        with open(log, errors="replace") as fh:
+            for line in fh:
+                m = re.match(r"^(C07STUCK|C07SLOW) (\{.*\})$", line.strip())
+                if m:
+                    rep = json.loads(m.group(2))
+                    if rep.get("i") in res:
+                        res[rep["i"]].setdefault("_stuck" if m.group(1) == "C07STUCK" else "_slow", []).append(rep)
+        os.rename(log, log + "." + tag)
     return [res[i] for i in range(len(runs))]
 
 
 PROC_RE = re.compile(r"engine/core\.\(?\*?(\w+)\)?\.Process")
 
 
+def unanswered(o):
+    return any(k in o for k in ("hang", "died"))
+
+
 def hang_verdict(ctx, run, o):
-    """Deadline missed twice.  A divergence only if the watchdog of the (second, fresh) worker saw the
-    pipeline parked; signature = the most downstream stage whose goroutine is blocked in a send."""
-    tr = o.get("trace") or ""
-    m = re.search(r"^C07STUCK (\{.*\})$", tr, re.M)
-    if not m:
-        slow = re.search(r"^C07SLOW (\{.*\})$", tr, re.M)
-        raise Inconclusive("run missed the deadline twice but the pipeline was not parked (%s): %s %s" % (
-            (slow.group(1)[:600] if slow else "no watchdog report"), json.dumps(run["case"]["g"]), json.dumps(run["case"]["prog"])))
-    rep = json.loads(m.group(1))
+    """The run was not answered.  A divergence only if two different worker processes reported the
+    pipeline parked (watchdog: deadline, two goroutine dumps, no row in between); signature = the most
+    downstream stage whose goroutine is blocked in a send."""
+    c = run["case"]
+    what = "%s %s" % (json.dumps(c["g"]), json.dumps(c["prog"]))
+    reps = o.get("_stuck", [])
+    if len({r["pid"] for r in reps}) < 2:
+        if "died" in o and not reps:
+            raise Inconclusive("a worker died without a Go panic (killed by the OS?) on " + what)
+        raise Inconclusive("run was not answered (%s) but the pipeline was not found parked on two workers (%d stall report(s), %d slow report(s)): %s" % (
+            "hang" if "hang" in o else "died", len(reps), len(o.get("_slow", [])), what))
+    rep = reps[-1]
     procs = rep.get("procs", [])
     stage, state = None, None
     for b in rep["blocked"]:
@@ -217,9 +235,8 @@ def hang_verdict(ctx, run, o):
         sig = "pipeline both fan-out exceeds buffers: blocked"
     else:
         sig = "pipeline %s stage: blocked in %s" % (stage, state)
-    c = run["case"]
-    ctx.diverge(sig, "the traversal never closed its result stream: after %ss no row had been delivered and every pipeline goroutine was parked "
-                     "(stage %s in %s); reproduced on a fresh worker" % (rep.get("after_s"), stage, state),
+    ctx.diverge(sig, "the traversal never closed its result stream: %ss after its start no row was being delivered and every pipeline goroutine was parked "
+                     "in a channel operation (stage %s in %s); seen on two worker processes" % (rep.get("after_s"), stage, state),
                 dict(graph=c["g"], prog=c["prog"], cancel=run["cancel"], expected_rows=[c["lo"], c["hi"]], flows=c["flows"],
                      case=c, probe=bool(run.get("probe")), watchdog=rep, how="harness/cmd/pipeh: one request line {i,graph,prog,cancel}"))
     return sig
@@ -232,8 +249,6 @@ def judge(ctx, done):
     for r, o in done:
         c = r["case"]
         what = "%s %s" % (json.dumps(c["g"]), json.dumps(c["prog"]))
-        if "died" in o:
-            raise Inconclusive("a worker died without a Go panic (killed by the OS?) on " + what)
         if "crash" in o:
             ctx.diverge("pipeline crash: %s" % o["crash"], "the traversal crashed the process instead of closing its result stream",
                         dict(graph=c["g"], prog=c["prog"], cancel=r["cancel"], site=o["crash"], trace=(o.get("trace") or "")[:2500]))
@@ -325,10 +340,10 @@ def replay(ctx):
     runs = [dict(case=x["case"], cancel=x["cancel"], probe=x.get("probe", False)) for x in [rec["replay"]] + rec.get("more", []) if "case" in x]
     if not runs:
         raise Inconclusive("replay file holds no run")
-    outs = execute(ctx, runs, "replay", 90, jobs=min(4, len(runs)))
+    outs = execute(ctx, runs, "replay", 45, jobs=min(4, len(runs)))
     done = []
     for r, o in zip(runs, outs):
-        if "hang" in o:
+        if unanswered(o):
             hang_verdict(ctx, r, o)
         else:
             done.append((r, o))
@@ -339,7 +354,7 @@ def run(ctx):
     if ctx.replay:
         return replay(ctx)
     quick = ctx.tier == "quick"
-    timeout_s = 30 if quick else 90
+    watchdog_s = 20 if quick else 45     # workloads that normally take < 3 s
     model = {}
     err = []
 
@@ -373,11 +388,11 @@ def run(ctx):
         if not aimed:
             raise Inconclusive("no generated run exceeds the both buffers")
         ctx.log("phase 1: %d runs aimed at the predicted both deadlock" % len(aimed))
-        outs1 = execute(ctx, aimed, "aim", timeout_s, jobs=len(aimed))
+        outs1 = execute(ctx, aimed, "aim", watchdog_s, jobs=len(aimed))
         blocked_sigs = set()
         done = []
         for r, o in zip(aimed, outs1):
-            if "hang" in o:
+            if unanswered(o):
                 blocked_sigs.add(hang_verdict(ctx, r, o))
             else:
                 done.append((r, o))
@@ -395,9 +410,9 @@ def run(ctx):
         # keep the runs of one graph together: every worker builds a graph at most once
         rest.sort(key=lambda r: (json.dumps(r["case"]["g"], sort_keys=True), ctx.rng.random()))
         ctx.log("phase 2: %d runs (%d classes of %d generated cases; %d avoided because both blocks)" % (len(rest), nclasses, len(cases), avoided))
-        outs2 = execute(ctx, rest, "main", timeout_s)
+        outs2 = execute(ctx, rest, "main", watchdog_s)
         for r, o in zip(rest, outs2):
-            if "hang" in o:
+            if unanswered(o):
                 hang_verdict(ctx, r, o)
             else:
                 done.append((r, o))
@@ -419,7 +434,7 @@ def run(ctx):
             cancels[lab] = cancels.get(lab, 0) + 1
     maxflow = max([max(r["case"]["flows"]) for r, o in finished] or [0])
     aimed_res = [dict(graph=r["case"]["g"], prog=[s["op"] for s in r["case"]["prog"]], per_direction=r["case"]["bothmax"],
-                      outcome="blocked" if "hang" in o else "closed") for r, o in zip(aimed, outs1)]
+                      outcome="blocked" if unanswered(o) else "closed") for r, o in zip(aimed, outs1)]
     ctx.cov.update(evaluations=len(finished) + len(blocked_sigs), distinct_nontrivial=nontrivial,
                    traces_validated_against_impl=len(finished), exhaustive=False,
                    rule="non-trivial = distinct (stage-kind sequence, volume class of every step relative to 100/1000/5000, cancel class) "
@@ -444,7 +459,7 @@ def run(ctx):
         "amounts of memory are not part of the property",
         "'the source stops' is only judged when the source holds more than need + 1.25 x everything the implementation-shaped model "
         "(real capacities) can hold in flight, and only the outcome 'the scan handed out every element' counts as not stopped",
-        "a run that misses the deadline is a divergence only if it missed it twice (fresh worker) and the watchdog found no progress and all pipeline "
-        "goroutines parked across two dumps; otherwise the check is inconclusive",
+        "a run that is not answered is a divergence only if two worker processes found no progress and all pipeline goroutines parked in channel "
+        "operations across two dumps after the deadline; otherwise the check is inconclusive",
         "full-interleaving TLC runs are bounded by MaxWork rows; larger volumes use the partial-order reduction argued in Pipeline.tla",
     ]
